@@ -193,7 +193,9 @@ async def record(path: Path, seed: int, letters: list[str], target: str, props: 
             break
     last_seed: tuple[int, bytes] | None = None
     states = []
-    for letter in letters:
+    for li, letter in enumerate(letters):
+        if box.get("clock_step") and tag == "A" and li == box["clock_step"][0]:
+            seams.OFFSET[0] += box["clock_step"][1]  # the recorder's wall clock is corrected (steps back) in the middle of the recording
         req = request_for(letter, last_seed, sa_sub)
         states.append((dict(ecu.state.__dict__), dict(session=server.state.session, security_access_level=server.state.security_access_level)))
         try:
@@ -254,11 +256,14 @@ def execute(item: dict[str, Any]) -> dict[str, Any]:
         worker = dbshim.DbWorker()
         run.add_actor(worker)
         G["rng_counter"]["n"] = 0
+        seams.OFFSET[0] = 0.0
+        if item.get("clock_step"):
+            box["clock_step"] = item["clock_step"]
 
         async def main() -> None:
             G["run_tag"] = "A"
             propsA = G["Props"](vin="WVWAAA", sw=1) if shape != "props0" else G["Props"](vin="", sw=0, coding=False, note=None)
-            wireA = await record(path, seed, letters, "tcp-lines://ecu-a:1", propsA if shape in ("props", "props0") else None, box, "A", item.get("late", ()))
+            wireA = await record(path, seed, letters, "tcp-lines://ecu-a:1", propsA if shape in ("props", "props0", "name+props") else None, box, "A", item.get("late", ()))
             box["wireA"] = wireA
             name = None
             props = None
@@ -273,6 +278,20 @@ def execute(item: dict[str, Any]) -> dict[str, Any]:
                 G["run_tag"] = "A2"
                 await record(path, seed, letters, "tcp-lines://ecu-a:1", None, box, "A2")
                 name = "A"
+            elif shape == "name+props":
+                # two runs of the SAME ECU (same address, same name) with different properties and different answers (the second run is
+                # another software version = another seed); ECU name and properties given together select the first one
+                G["run_tag"] = "B"
+                wireB = await record(path, seed + 1000, letters, "tcp-lines://ecu-a:1", G["Props"](vin="WVWAAA", sw=2), box, "B")
+                tag_ecus(path, {"tcp-lines://ecu-a:1": "A"})
+                name = "A"
+                if item.get("second"):
+                    props = {"sw": 2}
+                    box["wireA"], box["wireB"] = wireB, wireA  # the selected (second) recording is the reference
+                    box["states"]["A"], box["states"]["B"] = box["states"]["B"], box["states"]["A"]
+                else:
+                    props = {"sw": 1}
+                    box["wireB"] = wireB
             elif shape == "name-like":
                 # two ECUs whose names differ only in case / in characters that SQL LIKE treats as wildcards; the later one is selected
                 G["run_tag"] = "B"
@@ -312,7 +331,7 @@ def execute(item: dict[str, Any]) -> dict[str, Any]:
 
 def judge(item: dict[str, Any], box: dict[str, Any], res: Result) -> None:
     rp = {"item": item}
-    where = f"[seed={item['seed']} shape={item['shape']} history={item['letters']}{' names=' + str(item['names']) if item.get('names') else ''}{' late-reply-to=' + str(item['late']) if item.get('late') else ''}]"
+    where = f"[seed={item['seed']} shape={item['shape']} history={item['letters']}{' names=' + str(item['names']) if item.get('names') else ''}{' late-reply-to=' + str(item['late']) if item.get('late') else ''}{' clock-step=' + str(item['clock_step']) if item.get('clock_step') else ''}]"
 
     def v(sig: str, m: str) -> None:
         res.violate(f"C12|{sig}", m + " " + where, rp)
@@ -363,7 +382,7 @@ def run_item(item: dict[str, Any]) -> Result:
             w = box["wireA"]
             if w[k][1] is None and k + 1 < len(w) and w[k + 1][1] is not None:
                 res.count("histories_with_late_reply_logged_for_next_request")
-        if item["shape"] == "name-like" and [r for _, r in box["wireA"]] != [r for _, r in box["wireB"]]:
+        if item["shape"] in ("name-like", "name+props") and [r for _, r in box["wireA"]] != [r for _, r in box["wireB"]]:
             res.count("colliding_name_cases_with_different_recordings")
         if any(c["session"] != 1 for c, _ in box["states"]["A"]):
             res.count("histories_leaving_default_session")
@@ -406,6 +425,14 @@ def items(tier: str, seed: int) -> list[Any]:
         for names in (("gw-1", "gw_1"), ("Body", "BODY"), ("body", "Body"), ("ecu12", "ecu%"), ("x_y", "x_y2")):
             for seq in (["rd1"], ["f186", "rd1"], ["dsc2", "rd1"], ["rd1", "rd2"], ["dsc2", "seed"], ["rt1", "wr1"]):
                 out.append({"seed": sd, "letters": seq, "shape": "name-like", "names": list(names), "sample": False})
+        # ECU name and properties together: two runs of one ECU that differ in properties and answers
+        for seq in (["rd1"], ["f186", "rd1"], ["dsc2", "rd1"], ["rd1", "rd2"], ["dsc2", "seed"], ["rt1", "wr1"], ["dsc3", "rd2"]):
+            out.append({"seed": sd, "letters": seq, "shape": "name+props", "sample": False})
+            out.append({"seed": sd, "letters": seq, "shape": "name+props", "second": True, "sample": False})
+        # the recorder's wall clock steps back (NTP correction, VM resume) before request k; the same request occurs on both sides
+        for seq in (["seed", "seed"], ["rd1", "seed", "seed"], ["dsc2", "seed", "dsc2", "seed"], ["seed", "keybad", "seed", "keyok"], ["rd1", "rd1"], ["seed", "tp", "seed"]):
+            for k in range(1, len(seq)):
+                out.append({"seed": sd, "letters": seq, "shape": "one", "clock_step": [k, -3600.0], "sample": False})
         # recording faults: the reply to request k arrives only after the client's read timed out and is read as the answer to
         # request k+1 (logged with a RequestResponseMismatch); the replay must still reproduce what was logged
         for n in (2, 3) if quick else (2, 3, 4):
